@@ -11,6 +11,8 @@ Inductive helper :=
 | HMultiRollback (* a multi-output transaction (form multi-fill): every part is written through HStaged, the
                     parts written so far are recorded, and in merge mode a rollback registered before the
                     first part removes all of them on every exit *)
+| HMultiReserve (* attachment extraction: a hidden reservation marker is created per output first; the
+                   reservations made so far are released on every failure path and after the writes *)
 | HMulti       (* several outputs, each written through one of the helpers above; earlier outputs stay *)
 | HReadOnly    (* creates no file *)
 | HInPlace.    (* overwrites bytes of an existing file in place (PatchFile) *)
@@ -23,6 +25,8 @@ Inductive dkey :=
                   defer was registered: the commit branch is taken however the body ended *)
 | DRollbackFirst (* multi-output transaction: the deferred rollback is registered before the record loop and
                     is unconditional; every part is recorded before the loop returns its error *)
+| DReleaseAlways (* reservations: every error return of the reserving function hands the list reserved so far
+                    to the caller, which releases it; the release after the writes is deferred and unconditional *)
 | DNoDefer     (* not deferred: runs only when the body returns *)
 | DNA.         (* no decision (read-only / multi-output driver) *)
 
@@ -31,11 +35,11 @@ Record frow := FRow { f_pkg : string; f_name : string; f_helper : helper; f_key 
 Definition helper_eqb (a b : helper) : bool :=
   match a, b with
   | HStaged, HStaged | HPdfStaged, HPdfStaged | HCut, HCut | HNewFile, HNewFile
-  | HMulti, HMulti | HMultiRollback, HMultiRollback | HReadOnly, HReadOnly | HInPlace, HInPlace => true
+  | HMulti, HMulti | HMultiRollback, HMultiRollback | HMultiReserve, HMultiReserve | HReadOnly, HReadOnly | HInPlace, HInPlace => true
   | _, _ => false
   end.
 Definition dkey_eqb (a b : dkey) : bool :=
   match a, b with
-  | DFlag, DFlag | DErr, DErr | DShadowedErr, DShadowedErr | DNoDefer, DNoDefer | DRollbackFirst, DRollbackFirst | DNA, DNA => true
+  | DFlag, DFlag | DErr, DErr | DShadowedErr, DShadowedErr | DNoDefer, DNoDefer | DRollbackFirst, DRollbackFirst | DReleaseAlways, DReleaseAlways | DNA, DNA => true
   | _, _ => false
   end.
